@@ -24,8 +24,8 @@ PROPS = ("C03", "C04")
 BASE = dict(ActStrict=True, ShiftByMin=True, LatentCPs=set(), DoEmit=True, PairSameRow=False, ColdWraps=False,
             NoBreak=False, BruteForce=False)
 CFG = {
-    "quick": dict(Temps={0, 100, 200}, CPs={1, 2}, DTCs={0, 50}, MaxStreams=3, HotOpts={0, 1, 2, 4}, ColdOpts={0, 2, 3}),
-    "deepA": dict(Temps={0, 100, 200, 300}, CPs={1, 2}, DTCs={0, 50}, MaxStreams=3, HotOpts={0, 1, 2, 3, 4}, ColdOpts={0, 1, 2, 3, 4}),
+    "quick": dict(Temps={0, 100, 200}, CPs={1, 2}, DTCs={0, 50}, MaxStreams=3, HotOpts={0, 1, 2, 4, 5}, ColdOpts={0, 2, 3, 5}),
+    "deepA": dict(Temps={0, 100, 200, 300}, CPs={1, 2}, DTCs={0, 50}, MaxStreams=3, HotOpts={0, 1, 2, 3, 4, 5}, ColdOpts={0, 1, 2, 3, 4, 5}),
     "deepB": dict(Temps={0, 100, 200}, CPs={1, 2}, DTCs={0, 50}, MaxStreams=4, HotOpts={2, 4}, ColdOpts={2, 4}),
     "tiny": dict(Temps={0, 100, 200}, CPs={1, 2}, DTCs={0, 50}, MaxStreams=2, HotOpts={0, 1, 2, 3}, ColdOpts={0, 1, 2, 3}),
 }
